@@ -126,7 +126,13 @@ impl<T: AlgorithmName> core::fmt::Display for NameOf<T> {
 
 // ---- generic core ops ------------------------------------------------------------------------------
 fn core_ksblocks<T: StreamCipherCore>(c: &mut T, n: usize) -> Res {
+    // the destination is overwritten whatever it held: start from a non-zero pattern
     let mut v = vec![Block::<T>::default(); n];
+    for (j, b) in v.iter_mut().enumerate() {
+        for (i, x) in b.iter_mut().enumerate() {
+            *x = 0xA5u8.wrapping_add((7 * i + 13 * j) as u8);
+        }
+    }
     c.write_keystream_blocks(&mut v);
     Res::Bytes(from_blocks::<T>(&v))
 }
